@@ -71,3 +71,35 @@ Qed.
 Example vertex_slice_ex : vertex_slice 7 [3; 9; 5] = mk_slice 3 10
   /\ gen_make_slice_divisible (vertex_slice 7 [3; 9; 5]) 12 4 = mk_slice 3 11.
 Proof. split; reflexivity. Qed.
+
+(* both axes of the different-CRS branch: the x slice is adjusted within the source WIDTH, the y slice within its HEIGHT *)
+Definition adjust (s : pslice) (size : Z) (factor : option Z) : pslice :=
+  match factor with None => s | Some f => gen_make_slice_divisible s size f end.
+Definition gas_diff_slices (x0 : Z) (xs : list Z) (y0 : Z) (ys : list Z) (width height : Z) (factor : option Z) : pslice * pslice :=
+  (adjust (vertex_slice x0 xs) width factor, adjust (vertex_slice y0 ys) height factor).
+
+Lemma gas_diff_slices_keep x0 xs y0 ys width height factor :
+  (forall i, In i (x0 :: xs) -> 0 <= i < width) -> (forall j, In j (y0 :: ys) -> 0 <= j < height) ->
+  match factor with Some f => 0 < f | None => True end ->
+  let '(sx, sy) := gas_diff_slices x0 xs y0 ys width height factor in
+  let fits (s : pslice) (size : Z) := match factor with
+                                      | Some f => cdiv (sstop s - sstart s) f * f <= size | None => True end in
+  0 <= sstart sx < sstop sx /\ sstop sx <= width /\ 0 <= sstart sy < sstop sy /\ sstop sy <= height /\
+  (fits (vertex_slice x0 xs) width -> forall i, In i (x0 :: xs) -> sstart sx <= i < sstop sx) /\
+  (fits (vertex_slice y0 ys) height -> forall j, In j (y0 :: ys) -> sstart sy <= j < sstop sy).
+Proof.
+  intros Hx Hy Hf. unfold gas_diff_slices, adjust.
+  destruct (vertex_slice_hull x0 xs) as (X1 & X2 & X3). destruct (vertex_slice_hull y0 ys) as (Y1 & Y2 & Y3).
+  pose proof (Hx _ X2). pose proof (Hx _ X3). pose proof (Hy _ Y2). pose proof (Hy _ Y3).
+  pose proof (X1 _ X2). pose proof (Y1 _ Y2).
+  destruct factor as [f|].
+  - destruct (vertex_slice_divisible x0 xs width f Hx Hf) as [(A1 & A2 & A3 & _) A].
+    destruct (vertex_slice_divisible y0 ys height f Hy Hf) as [(B1 & B2 & B3 & _) B].
+    cbv zeta in A1, A2, A3, B1, B2, B3, A, B.
+    split; [lia|]. split; [lia|]. split; [lia|]. split; [lia|]. split; [exact A | exact B].
+  - split; [lia|]. split; [lia|]. split; [lia|]. split; [lia|].
+    split; intros _ k Hk; [apply X1 | apply Y1]; exact Hk.
+Qed.
+
+Example gas_diff_ex : gas_diff_slices 0 [252] 3 [40] 400 100 (Some 2) = (mk_slice 0 254, mk_slice 3 41).
+Proof. reflexivity. Qed.
